@@ -209,7 +209,7 @@ def main():
     t_build = time.time() - t_start
     env_probe("start")
     known = load_known(prop)
-    budget = a.budget or BUDGET[a.tier]
+    budget = a.budget or P.get("budget", {}).get(a.tier) or BUDGET[a.tier]
     results = []
     weights = [l.get("weight", 1.0) for l in legs]
     for i, leg in enumerate(legs):
